@@ -17,8 +17,19 @@ pub struct Observer {
 pub const NO_JITTER: u64 = 99999;
 
 impl Observer {
-    pub fn new(backend: Backend, jitter: u64) -> Observer {
-        let b = ExternalClient::builder()
+    pub fn new(backend: Backend, jitter: u64, signer: Option<(mls_rs_core::crypto::SignatureSecretKey, mls_rs_core::identity::SigningIdentity)>) -> Observer {
+        if let Some((sk, id)) = signer {
+            let b = Self::base(backend).signer(sk, id);
+            let client = if jitter == NO_JITTER { b.build() } else { b.max_epoch_jitter(jitter).build() };
+            return Observer { client, group: None };
+        }
+        let b = Self::base(backend);
+        let client = if jitter == NO_JITTER { b.build() } else { b.max_epoch_jitter(jitter).build() };
+        Observer { client, group: None }
+    }
+
+    fn base(backend: Backend) -> mls_rs::external_client::builder::ExternalClientBuilder<ExtCfg> {
+        ExternalClient::builder()
             .identity_provider({
                 let v = VIdentity::default();
                 v.reject.lock().unwrap().insert(b"rejected".to_vec());
@@ -26,9 +37,8 @@ impl Observer {
             })
             .crypto_provider(DynCrypto::new(backend, "observer", Recorder::new()))
             .extension_type(mls_rs::extension::ExtensionType::new(0xF0F0))
-            .custom_proposal_types(Some(mls_rs::group::proposal::ProposalType::new(0xF0F1)));
-        let client = if jitter == NO_JITTER { b.build() } else { b.max_epoch_jitter(jitter).build() };
-        Observer { client, group: None }
+            .custom_proposal_types(Some(mls_rs::group::proposal::ProposalType::new(0xF0F1)))
+            .extension_types([0xF0F2u16, 0xF0F3].into_iter().map(mls_rs::extension::ExtensionType::new))
     }
 
     pub fn join(&mut self, group_info: MlsMessage, tree: Option<mls_rs::group::ExportedTree<'static>>) -> String {
